@@ -8,6 +8,22 @@ CHECKS = {
                 technique="abstract interpretation of MIR (polymorphic Builder::init) + canonical comparison-atom polynomials compared with the oracle decision list",
                 text="Decides, for all (w,h,ox,oy) in u16^4 and all framebuffer sizes at once, that the path conditions under which Builder::init returns InvalidDisplaySize / InvalidDisplayOffset / proceeds equal the property's decision list, that rejected paths emit no pin, delay or bus event, and that the validation arithmetic cannot wrap. One polymorphic MIR body covers every model, transport and reset-pin type.",
                 note="Trusted: rustc MIR, the interpreter's polynomial normal form, u32::from(u16) being value preserving. Model::init is an abstract event here (its own behaviour is C11)."),
+    "C17": dict(level="proof", design="5/C17",
+                technique="typestate / event-order analysis: interpretation of polymorphic Builder::init to event words + crate-wide who-drives / who-constructs inventories over MIR",
+                text="Every path of Builder::init (symbolic Option<RST>, any model / transport / options) is classified by its event word: with a pin PIN_LO(rst).DELAY>=10us.PIN_HI(rst) with no bus event before the pin is high and no soft reset; without a pin exactly one parameterless CMD(0x01) first; Model::init follows on every success path, error paths are prefixes. Inventories: the reset pin is driven nowhere else, Display is constructed only by Builder::init, none of the 14 model inits sends opcode 0x01 and all their opcodes are constants.",
+                note="Trusted: rustc MIR, interpreter, embedded-hal trait methods are the hardware events. External Model impls: only the generic part (reset before Model::init) is covered."),
+    "C13": dict(level="proof", design="5/C13",
+                technique="inductive invariant discharged per method by abstract interpretation of MIR (event words, minimum-delay sums, field-flow of the sleeping flag)",
+                text="The invariant 'sleeping flag = state implied by the last sleep-class command' is proved for every history by per-method obligations on polymorphic MIR: init constructs sleeping=false and each built-in model init ends with sleep-out + >=120 ms; sleep/wake emit exactly their opcode, then >=120 ms, then set the flag, and leave it unchanged on error paths; every other &mut-self method of Display provably neither writes the flag nor emits 0x10/0x11.",
+                note="Trusted: rustc MIR, interpreter, DelayNs unit semantics. The unsafe dcs() escape hatch is outside the property."),
+    "C14": dict(level="proof", design="5/C14",
+                technique="bit-sliced abstract interpretation: the byte as a canonical multilinear polynomial over input bits and enum indicators, compared with the MIPI oracle",
+                text="new / with_color_order / with_orientation / with_refresh_order / From<&ModelOptions> / default are interpreted on a fully symbolic starting byte and symbolic enum arguments; polynomial equality with the oracle decides all 256 x 2 x 8 x 4 cases at once (bits 7-5 from the orientation geometry, 4/3/2 from the property text, 1-0 zero), including that each updater changes only its own bits.",
+                note="Trusted: rustc MIR, interpreter, MIPI bit layout as stated in the property. Field privacy (checked) makes the analysed functions the only constructors."),
+    "C18": dict(level="proof", design="5/C18",
+                technique="abstract interpretation of every DcsCommand impl on a symbolic 16-byte buffer; per-bit polynomial equality with the MIPI opcode / big-endian table",
+                text="For all 18 DcsCommand impls: opcode, returned length, every written parameter byte (all 2^16 values per field at once) and every untouched buffer cell are compared with the MIPI DCS table; write_command::<_, T> is interpreted for each T and must emit exactly one send_command with that opcode and the first n bytes; write_raw must forward its arguments unchanged.",
+                note="Trusted: rustc MIR, interpreter, summaries of u16::to_be_bytes / copy_from_slice / slice indexing, the MIPI opcode table."),
 }
 
 NOT_APPLICABLE = {
